@@ -76,6 +76,8 @@ class SpecEval:
             return self.eng.ghost_get(self.st, f"global.{mod}.{n}", g[n])
         if n in R.ENUMS:
             return py(R.ENUMS[n])
+        if n in R.NAME_CONSTS:
+            return R.NAME_CONSTS[n]
         owners = [m for m, gs in R.MODULE_GLOBALS.items() if n in gs]
         if len(owners) == 1:       # a global of another module (contracts may mention the state their callees keep)
             return self.eng.ghost_get(self.st, f"global.{owners[0]}.{n}", R.MODULE_GLOBALS[owners[0]][n])
@@ -99,9 +101,14 @@ class SpecEval:
                 for c in cl:
                     for sc in R.subclasses(c):
                         key = self.eng.method_key(sc, node.attr)
-                        if key and R.CONTRACTS[key].value:
+                        if key and key in R.CONTRACTS and R.CONTRACTS[key].value:
                             sub = SpecEval(self.eng, self.st, self.pre, dict(self.extra, self=V(("ref", sc, False), o.t)))
                             return sub.value(R.CONTRACTS[key].value)
+                # a field of a class outside the static sort (only meaningful under an isinstance guard of the clause):
+                # the heap model is total, so this is a plain array read
+                anyc = [c for c in R.CLASSES if node.attr in R.CLASSES[c]["fields"]]
+                if len(anyc) == 1:
+                    return self.eng.load_field(self.st, o.t, anyc[0], node.attr)
                 raise Unsupported(f"spec: field {node.attr} of {show(o.s)}")
             owners = {R.field_owner(c, node.attr) for c in cands}
             if len(owners) == 1:
@@ -127,7 +134,19 @@ class SpecEval:
             raise Unsupported(f"contract text {ast.unparse(node)!r}: old(e)[k] reads the CURRENT heap through an old reference; write old(e[k])")
         o = self.eval(node.value)
         if isinstance(node.slice, ast.Slice):
-            raise Unsupported("spec: slice")
+            lo_ = lift(o) if o.s == PY else o
+            if lo_.s != STR or node.slice.step is not None:
+                raise Unsupported("spec: slice")
+            ln = z3.Length(lo_.t)
+
+            def clamp(n, default):
+                if n is None:
+                    return default
+                t = lift(self.eval(n)).t
+                t = z3.If(t < 0, t + ln, t)
+                return z3.If(t < 0, z3.IntVal(0), z3.If(t > ln, ln, t))
+            a, b = clamp(node.slice.lower, z3.IntVal(0)), clamp(node.slice.upper, ln)
+            return V(STR, z3.SubString(lo_.t, a, z3.If(b > a, b - a, z3.IntVal(0))))
         i = self.eval(node.slice)
         if o.s[0] == "list":
             li = lift(i)
@@ -204,6 +223,9 @@ class SpecEval:
             return V(INT, x / y)
         if isinstance(op, ast.Mod) and both_int:
             return V(INT, x % y)
+        if isinstance(op, ast.Pow):
+            from .engine import power
+            return power(None, la, lb)
         raise Unsupported("spec: operator")
 
     def e_Compare(self, node):
@@ -311,6 +333,9 @@ class SpecEval:
                     return V(INT, z3.IndexOf(lr.t, args[0].t, args[1].t if len(args) > 1 else z3.IntVal(0)))
                 if f.attr == "count":
                     return V(INT, self.eng_count(lr.t, args[0].t))
+                if f.attr == "strip":
+                    from .externals import strip_term
+                    return V(STR, strip_term(lr.t, args[0].t if args else None))
         raise Unsupported(f"spec: call {ast.unparse(node)}")
 
     def eng_count(self, s, c):
@@ -419,6 +444,14 @@ class SpecEval:
 
     def c_real(self, node):
         return V(REAL, to_real(self.num(self.eval(node.args[0]))))
+
+    def c_trunc(self, node):
+        """int(x) of a real (truncation towards zero), as the engine models the builtin"""
+        v = lift(self.num(self.eval(node.args[0])))
+        if v.s == INT:
+            return v
+        t = to_real(v)
+        return V(INT, z3.If(t >= 0, z3.ToInt(t), -z3.ToInt(-t)))
 
     def c_is_none(self, node):
         return V(BOOL, self.eng.equal(self.st, self.eval(node.args[0]), VNONE))
